@@ -7,6 +7,14 @@ VARIANTS = {
     "rel": {"rustflags": CFG},
     # same + debug assertions: OxiDD's own debug_assert!s become extra oracles
     "dbg": {"rustflags": CFG + " -C debug-assertions=on"},
+    # feature matrix for C20 (and for re-running shared monitors on the other backend)
+    "pointer": {"rustflags": CFG, "features": "pointer,cache,mt"},
+    "pointer-nocache": {"rustflags": CFG, "features": "pointer,mt"},
+    "pointer-st": {"rustflags": CFG, "features": "pointer,cache"},
+    "pointer-nocache-st": {"rustflags": CFG, "features": "pointer"},
+    "nocache": {"rustflags": CFG, "features": "index,mt"},
+    "st": {"rustflags": CFG, "features": "index,cache"},
+    "nocache-st": {"rustflags": CFG, "features": "index"},
     # Miri: UB, data races (incl. weak-memory emulation), deadlocks on tiny workloads; one Miri seed per shard
     "miri": {"miri": True, "rustflags": CFG, "kind": "miri",
              "miriflags": "-Zmiri-tree-borrows -Zmiri-permissive-provenance -Zmiri-disable-isolation -Zmiri-ignore-leaks"},
@@ -333,6 +341,35 @@ PLAN = {
         ],
         "require_counters": {"all": ["circuits", "errors_cycle", "errors_unknown_input", "parser_inputs", "parser_errors", "aiger_roundtrips"]},
     },
+    "C20": {
+        "level": "exploration",
+        "cross_variant_digest": True,
+        "rule": "one deterministic corpus (24 quick / 240 thorough generated histories per kind with apply, ite, quantify, substitute, "
+                "restrict, cofactor, pick_cube_dd, clone/drop, gc, add_vars, reordering; plus 6 orders x 3 kinds of compact 3-variable "
+                "suites: node counts of all 256 functions, 256x64 pairs x 8 operators, all quantifications, all pick_cube choice "
+                "vectors) executed in every build variant: quick {index+cache+mt, pointer+cache+mt, index-nocache-st}; thorough all 8 "
+                "of {index,pointer} x {cache,nocache} x {mt,st}; inside each variant with 1, 2 and 8 worker threads. Each run is "
+                "checked against the truth-table model and the structural/ref-count audits; per corpus item a digest (result tables, "
+                "node counts, equality pattern, orders, cubes) must be identical across thread counts and across all variants. "
+                "distinct = distinct corpus items whose digests were produced.",
+        "assumptions": ["MTBDD is not part of the matrix (the pointer backend has no dynamic terminal manager upstream)"],
+        "jobs": [
+            {"monitor": "c20_digest", "variant": "rel", "shards": 16},
+            {"monitor": "c20_digest", "variant": "pointer", "shards": 16},
+            {"monitor": "c20_digest", "variant": "nocache-st", "shards": 16},
+            {"monitor": "c20_digest", "variant": "nocache", "shards": 16, "tiers": ("thorough",)},
+            {"monitor": "c20_digest", "variant": "st", "shards": 16, "tiers": ("thorough",)},
+            {"monitor": "c20_digest", "variant": "pointer-nocache", "shards": 16, "tiers": ("thorough",)},
+            {"monitor": "c20_digest", "variant": "pointer-st", "shards": 16, "tiers": ("thorough",)},
+            {"monitor": "c20_digest", "variant": "pointer-nocache-st", "shards": 16, "tiers": ("thorough",)},
+            # the shared history monitors on the other backend
+            {"monitor": "c01_hist", "variant": "pointer", "shards": 8},
+            {"monitor": "c05_hist", "variant": "pointer", "shards": 8},
+            {"monitor": "c08_rand", "variant": "pointer", "shards": 8, "param": "01"},
+            {"monitor": "c06_diff", "variant": "pointer", "shards": 8},
+        ],
+        "require_counters": {"all": ["histories", "suites", "digests_compared_across_variants"]},
+    },
     "C08": {
         "level": "exploration",
         "exhaustive": True,
@@ -368,6 +405,13 @@ PLAN = {
 HOOK_COMMITS = []
 
 MANIFEST_TEXT = {
+    "C20": {
+        "text": "Held on the executed corpus: every configuration is checked against the model and the audits on its own, and the "
+                "digests of all corpus items agree across thread counts and across the build variants (3 in quick, all 8 in thorough).",
+        "design_ref": "DESIGN.md section 5 / C20",
+        "note": "Trusted: the corpus generator is deterministic and identical in every variant (same harness source, different cargo features).",
+        "technique": "runtime monitoring: differential execution of one recorded corpus across build configurations + reference-model and audit oracles",
+    },
     "C18": {
         "text": "Held on every executed case: all small circuits of the enumerated sub-spaces and sampled larger ones are simplified "
                 "and compared by truth table, normal form and gate map; cyclic / unknown-input circuits must yield Err; millions of "
